@@ -141,6 +141,19 @@ func init() {
 
 func manyName(i int) string { return fmt.Sprintf("many-%04d.txt", i) }
 
+// padName: a synthetic license of about n bytes (mode=offsets: it goes in front of a 900-byte
+// license, whose position in the archive stream then sweeps over every 512-byte alignment with
+// the 32 KiB and 64 KiB marks of the stream).
+func padName(n int) string { return fmt.Sprintf("pad-%06d.txt", n) }
+
+func init() {
+	base := synText(14000)
+	for n := 4096; n <= 9984; n += 32 {
+		synthetic[padName(n)] = base[:n]
+	}
+	synthetic["after-pad.txt"] = "Permission to use copy modify and distribute this software and its documentation for any purpose and without fee is hereby granted provided that the above copyright notice appear in all copies and that both that copyright notice and this permission notice appear in supporting documentation and that the name of the author not be used in advertising or publicity pertaining to distribution of the software without specific written prior permission the author makes no representations about the suitability of this software for any purpose it is provided as is without express or implied warranty the author disclaims all warranties with regard to this software including all implied warranties of merchantability and fitness in no event shall the author be liable for any special indirect or consequential damages"
+}
+
 var (
 	readOnce sync.Once
 	origRead func(string) ([]byte, error)
@@ -186,7 +199,7 @@ func c15Archive(c *vrep.Ctx) {
 	pool := []string{"MIT.txt", "Apache-2.0.txt", "Apache-2.0.header.txt", "BSD-3-Clause.txt", "ISC.txt", "GPL-2.0.header.txt", "Unlicense.txt", "WTFPL.txt"}
 	var syn []string
 	for n := range synthetic {
-		if !strings.HasPrefix(n, "many-") {
+		if !strings.HasPrefix(n, "many-") && !strings.HasPrefix(n, "pad-") && n != "after-pad.txt" {
 			syn = append(syn, n)
 		}
 	}
@@ -214,6 +227,13 @@ func c15Archive(c *vrep.Ctx) {
 				set = append(set, manyName(i))
 			}
 			sets = append(sets, set)
+		}
+	case "offsets":
+		// an 800-byte license behind a license of every size 4 096..9 984 bytes in steps of 32 (the
+		// second text entry then starts at EVERY 512-byte block of a 32 KiB stretch of the archive
+		// stream: measured by TestDebugOffsets: 63 of 64 residues)
+		for n := 4096; n <= 9984; n += 32 {
+			sets = append(sets, []string{padName(n), "after-pad.txt"})
 		}
 	case "counts":
 		// EVERY number of licenses 1..N in one archive (batch sizes, worker shares)
